@@ -159,7 +159,7 @@ static const Seeds& seeds() {
     return s;
 }
 
-enum Oracle { OR_MODEL = 1, OR_WALK = 2, OR_API = 4, OR_MEM = 8, OR_LEAK = 16, OR_ALL = 31 };
+enum Oracle { OR_MODEL = 1, OR_WALK = 2, OR_API = 4, OR_MEM = 8, OR_LEAK = 16, OR_ALL = 31, OR_PUTINFO = 32 };
 static unsigned g_oracles = OR_ALL;
 
 struct RunOut {
@@ -258,8 +258,16 @@ static RunOut run_hist(const Hist& h, bool want_canon, bool full_oracles) {
                 g = ykc::t_get(ti, o.key);
                 st = g.st;
                 break;
-            case O_PUT: st = ykc::t_put(tk, ti, o.key, ykc::val_of(o.key, o.gen), false); break;
-            case O_UPUT: st = ykc::t_put(tk, ti, o.key, ykc::val_of(o.key, o.gen), true); break;
+            case O_PUT:
+            case O_UPUT:
+                if ((g_oracles & OR_PUTINFO) != 0 && full_oracles && i + 1 == all.size() && ti->root_ != nullptr) {
+                    // C12 on the explored transition: the reported nodes against the version words of all border nodes
+                    std::string e = ykc::put_info_check(tk, ti, o.key, ykc::val_of(o.key, o.gen), o.kind == O_UPUT, m.count(o.key) != 0, st);
+                    if (!e.empty()) fail(e.substr(0, e.find('|')), e.substr(e.find('|') + 1));
+                } else {
+                    st = ykc::t_put(tk, ti, o.key, ykc::val_of(o.key, o.gen), o.kind == O_UPUT);
+                }
+                break;
             case O_REMOVE: st = ykc::t_remove(tk, ti, o.key); break;
             default: break;
         }
@@ -451,6 +459,7 @@ int main(int argc, char** argv) {
         if (a.oracle.find("api") != std::string::npos) g_oracles |= OR_API;
         if (a.oracle.find("mem") != std::string::npos) g_oracles |= OR_MEM;
         if (a.oracle.find("leak") != std::string::npos) g_oracles |= OR_LEAK;
+        if (a.oracle.find("putinfo") != std::string::npos) g_oracles |= OR_PUTINFO;
     }
     if (!a.replay_scenario.empty()) {
         Hist h = hist_parse(a.replay_scenario);
